@@ -26,7 +26,7 @@ class Spec(core.PropSpec):
     components = {"real": ["kappadata.samplers.DistributedSampler", "RandomSampler", "ClassBalancedSampler", "WeightedSampler",
                            "kappadata.utils.getall_as_tensor", "torch.utils.data.DistributedSampler (base class)"],
                   "stub": ["rank processes (SimProcess: private ambient RNG triple, pickled dataset copy)", "torch.distributed (absent)"]}
-    tiers = {"quick": dict(runs=16000, budget_s=40), "thorough": dict(runs=800000, budget_s=600)}
+    tiers = {"quick": dict(runs=12000, budget_s=40), "thorough": dict(runs=800000, budget_s=600)}
 
     def gen_plan(self, seed, tier):
         return CL.gen_plan(seed, ["dist", "dist", "cb", "weighted", "random"], big=tier != "quick")
